@@ -316,6 +316,7 @@ class Port(Base):
             platform = self._platform
             if platform in ["asa", "nxos"] and len(ports) != 1:
                 raise ValueError(f"invalid count of {ports=}, for {platform=} expected 1 port")
+            ports = list(set(ports))  # a repeated port matches nothing new
 
         return sorted(ports)
 
